@@ -181,6 +181,11 @@ struct Judge<'a> {
     residual: usize,
     steps: usize,
     seen: HashMap<String, ()>,
+    /// write every event (not only the residual ones) - used for the first walks, so that the
+    /// trace specification is exercised on ideal behaviour too
+    all: bool,
+    /// calls executed since the world was built (replay information for a stored case)
+    hist: Vec<J>,
 }
 
 impl<'a> Judge<'a> {
@@ -211,15 +216,20 @@ impl<'a> Judge<'a> {
         if next.is_none() {
             next = g.index.get(&key(&state_of(post))).cloned();
         }
-        if !ideal {
+        if !ideal || self.all {
             let ev = json!({"event": "call", "call": g.calls[ci], "out": outc, "pre": pre, "post": post});
             let k = ev.to_string();
             if !self.seen.contains_key(&k) {
                 self.seen.insert(k, ());
-                self.residual += 1;
+                if !ideal {
+                    self.residual += 1;
+                }
+                let mut ev = ev;
+                ev["hist"] = J::Array(self.hist.clone());
                 writeln!(self.out, "{}", ev).unwrap();
             }
         }
+        self.hist.push(g.calls[ci].clone());
         next
     }
 }
@@ -231,10 +241,17 @@ pub fn replay(args: &[String]) -> i32 {
     let walk_len: usize = arg_value(args, "--len").and_then(|v| v.parse().ok()).unwrap_or(100);
     let seed: u64 = arg_value(args, "--seed").and_then(|v| v.parse().ok()).unwrap_or(1);
     let edges_on = !arg_flag(args, "--no-edges");
+    let trace_walks: usize = arg_value(args, "--trace-walks").and_then(|v| v.parse().ok()).unwrap_or(0);
+    let (shard, nshard): (usize, usize) = arg_value(args, "--shard")
+        .and_then(|v| {
+            let mut it = v.split('/');
+            Some((it.next()?.parse().ok()?, it.next()?.parse().ok()?))
+        })
+        .unwrap_or((0, 1));
     let g = load(inp);
     let mut out = open_out(outp);
     writeln!(out, "{}", json!({"event": "pool", "pool": g.pool})).unwrap();
-    let mut j = Judge { out, residual: 0, steps: 0, seen: HashMap::new() };
+    let mut j = Judge { out, residual: 0, steps: 0, seen: HashMap::new(), all: false, hist: vec![] };
 
     // BFS tree over successful edges
     let ns = g.states.len();
@@ -285,8 +302,13 @@ pub fn replay(args: &[String]) -> i32 {
     let mut edges_done = 0usize;
     let mut ok_edges = 0usize;
     if edges_on {
-        for &s in &order {
+        for (oi, &s) in order.iter().enumerate() {
+            if oi % nshard != shard {
+                continue;
+            }
             let path = path_to(s);
+            let path_calls: Vec<J> = path.iter().map(|(_, ci)| g.calls[*ci].clone()).collect();
+            j.hist = path_calls.clone();
             // reach s in a fresh world; None if the implementation diverges on the way (the
             // diverging edge is reported where it is tested itself)
             let reach = |g: &Graph| -> Option<World> {
@@ -331,15 +353,18 @@ pub fn replay(args: &[String]) -> i32 {
                         None => break,
                     };
                     pre = w.project();
+                    j.hist = path_calls.clone();
                 }
             }
         }
     }
 
     // random walks over the graph
-    let mut rng = StdRng::seed_from_u64(seed);
+    let mut rng = StdRng::seed_from_u64(seed.wrapping_mul(1000003).wrapping_add(shard as u64));
     let mut walk_steps = 0usize;
-    for _ in 0..walks {
+    for wi in 0..walks {
+        j.all = wi < trace_walks;
+        j.hist = vec![];
         let w = match World::build(&g.pool, false) {
             Ok(w) => w,
             Err(_) => break,
